@@ -398,7 +398,7 @@ func genFacts(w *bufio.Writer, repo string) error {
 
 	// every access to l.writer in Publish / NextOffset / Sync / delete happens with writerMu held
 	wg := true
-	for _, name := range []string{"Publish", "delete"} {
+	for _, name := range []string{"Publish", "delete", "NextOffset", "Sync"} {
 		fd := logGo.fn("log", name)
 		if err := need(fd, name); err != nil {
 			return err
@@ -408,6 +408,16 @@ func genFacts(w *bufio.Writer, repo string) error {
 		}
 	}
 	facts["writerGuarded"] = wg
+
+	// Sync: the fsync and the offset it reports happen in one critical section of the writer lock (the offset
+	// acknowledged is the one the fsync covered): locked once, released only by the deferred unlock, and both
+	// calls go through l.writer (not through a copy taken under the lock and used after it)
+	{
+		fd := logGo.fn("log", "Sync")
+		evs := events(fd.Body)
+		lk, sy, nx := firstIdx(evs, "call:l.writerMu.Lock"), firstIdx(evs, "call:l.writer.Sync"), firstIdx(evs, "call:l.writer.GetNextOffset")
+		facts["syncUnderWriterLock"] = lk >= 0 && lk < sy && sy < nx && hasEv(evs, "defer:l.writerMu.Unlock") && !hasEv(evs, "call:l.writerMu.Unlock")
+	}
 
 	// segment swaps happen under the readers write lock
 	pub := events(logGo.fn("log", "Publish").Body)
@@ -614,6 +624,23 @@ func genFacts(w *bufio.Writer, repo string) error {
 	rd := readerGo.fn("reader", "Delete")
 	if err := need(rd, "reader.Delete"); err != nil {
 		return err
+	}
+	// ConsumeByKey on the head: the next offset is read once, before the keys (a publish in between is then either
+	// returned or still ahead of the returned offset)
+	{
+		fd := readerGo.fn("reader", "ConsumeByKey")
+		if err := need(fd, "reader.ConsumeByKey"); err != nil {
+			return err
+		}
+		evs := events(fd.Body)
+		n := 0
+		for _, e := range evs {
+			if e.what == "call:ix.GetNextOffset" {
+				n++
+			}
+		}
+		nx, ky := firstIdx(evs, "call:ix.GetNextOffset"), firstIdx(evs, "call:ix.Keys")
+		facts["consumeByKeyNextFirst"] = n == 1 && nx >= 0 && nx < ky
 	}
 	strFacts["readerDeleteCalls"] = calls(rd, "rs.Remove", "r.segment.Remove", "rs.Rename", "rs.Override")
 	wd := writerGo.fn("writer", "Delete")
